@@ -272,7 +272,9 @@ func (pp *PP) PeerTick(kind string) (panicked string) {
 		case "upload":
 			err = peer.VerifScheduleUpload(pp.P, true)
 		case "expire":
-			if peer.VerifExpireRequests(pp.P) {
+			var expired bool
+			expired, err = peer.VerifExpireRequests(pp.P)
+			if err == nil && expired {
 				peer.VerifMaybeRequest(pp.P)
 			}
 		case "pex":
